@@ -15,6 +15,12 @@ from vlib import *
 RULE = ('h,p,K = k/4 (k>=1); custom pmfs on 0..D, D in 1..8, dyadic probabilities (denominator 4..64) with zero-probability '
         'points (also at 0 and at D) and short supports; Poisson means on a 0.5-grid in 0.5..20; integer s<S with S-s>D in ~40% '
         'of the custom cost cases; separate malformed stream (non-positive cost parameter, s>=S, p0=1, wrong pmf length). '
+        'Near-tie stream for the exact algorithm (both entry points): h, p and the demand distribution as above, but K = K*(1+-delta) where K* is a fixed cost at which the optimal pair changes '
+        '(a breakpoint of the lower envelope of the lines K -> c(s,S;K), computed by the generator over all pairs of a window) and delta is chosen so that the two pairs that tie at K* '
+        '(mostly S vs S+1 with the same s, or s vs s-1) differ in cost by a relative 1e-8..1e-4 at the K handed over (K is then a dyadic number with denominator 2^36; Poisson means <= 12 in the quick tier). '
+        'Redundant-argument cases (~25% of every valid stream): an argument that the documentation calls "ignored" is supplied as well - demand_mean together with use_poisson=False '
+        '(the pmf\'s mean, another mean, 0), demand_hi/demand_pmf together with use_poisson=True (the truncated renormalised Poisson pmf, an unrelated pmf, or demand_hi alone); the oracle judges '
+        'the result by the distribution that use_poisson selects, and the answer must be identical to the one without the redundant argument. '
         'Call-sequence stream (kind seq_custom): 3..7 consecutive calls in one process (cost of a pair / exact algorithm with a custom pmf, now and then a Poisson cost '
         'call in between) that mostly share h, p and the pmf LENGTH but differ in the pmf contents (some steps repeat an earlier pmf, pair or parameter set, a few change '
         'K, h/p or the length), the pmf being handed over in one of three ways: "inplace" = ONE caller-owned list object whose contents are overwritten before each call, '
@@ -66,7 +72,9 @@ def gen_mean(rng, hi=20.0):
     return rng.choice([0.5, 1.0, 1.5, 2.0, 2.5, 3.0]) if rng.random() < 0.4 else rng.randint(1, int(hi * 2)) / 2.0
 
 
-def gen_case(rng, kind, tier):
+def gen_case(rng, kind, tier, plain=False):
+    tie = kind.endswith('_tie')            # fixed cost placed next to a value at which the optimal pair changes
+    if tie: kind = kind[:-4]
     h, p, K = gen_costs(rng)
     c = dict(kind=kind, h=h, p=p, K=K, malformed=None)
     if kind in ('cost_custom', 'exact_custom'):
@@ -86,12 +94,126 @@ def gen_case(rng, kind, tier):
         else:
             if rng.random() < 0.3:        # small instances that the Coq model can evaluate quickly
                 c['mean'] = rng.choice([0.5, 1.0, 1.5, 2.0]); c['K'] = Fraction(rng.randint(1, 24), 4)
+            if tie and tier == 'quick' and c['mean'] > 12: c['mean'] = gen_mean(rng, 12.0)
+    if tie:
+        near_tie_K(rng, c)
+    if not plain and rng.random() < 0.25:
+        add_ignored_args(rng, c)
     return c
+
+
+# The documentation of both entry points says: demand_mean is "ignored" when use_poisson is False, demand_hi / demand_pmf are "ignored" when
+# use_poisson is True. A wrapper that forwards all demand arguments whatever the flag (a truncated pmf kept alongside the mean, the pmf of the
+# previous product still in the argument dict) is valid use; the distribution the property speaks about is the one selected by use_poisson.
+IG_KEYS = ('ig_mean', 'ig_hi', 'ig_pmf')
+
+
+def add_ignored_args(rng, c):
+    if c['kind'].endswith('custom'):
+        mu = float(sum(d * x for d, x in enumerate(c['pmf'])))
+        c['ig_mean'] = rng.choice([mu, mu, gen_mean(rng), float(rng.randint(0, 12))])
+    else:
+        u = rng.random()
+        if u < 0.15:
+            c['ig_hi'] = rng.randint(0, 30)                         # demand_hi alone
+            return
+        if u < 0.6:                                                  # the same Poisson distribution, truncated and renormalised
+            from scipy.stats import poisson
+            hi = max(1, int(c['mean'] + rng.choice([0, 1, 2, 4]) * math.sqrt(c['mean'])) + rng.randint(0, 3))
+            q = [float(x) for x in poisson.pmf(range(hi + 1), c['mean'])]
+            t = sum(q)
+            pmf = [F(x / t) for x in q]
+        else:                                                        # an unrelated pmf
+            pmf = gen_pmf(rng)
+        c['ig_pmf'] = pmf; c['ig_hi'] = len(pmf) - 1
+
+
+def has_ignored(c):
+    return any(k in c for k in IG_KEYS)
+
+
+def without_ignored(c):
+    return {k: v for k, v in c.items() if k not in IG_KEYS}
+
+
+def ignored_text(c):
+    if 'ig_mean' in c: return 'demand_mean=%r' % c['ig_mean']
+    if 'ig_pmf' in c: return 'demand_hi=%d, demand_pmf=[%d values]' % (c['ig_hi'], len(c['ig_pmf']))
+    return 'demand_hi=%d' % c['ig_hi']
+
+
+# ---- fixed costs next to a tie
+# For a fixed demand distribution and fixed h, p the cost of every pair is a straight line in K: c(s,S;K) = a(s,S) + K b(s,S) (b = order frequency),
+# so the optimal cost is the lower envelope of these lines and the optimal pair changes at its breakpoints K*. With K = K*(1 +- delta) two pairs
+# (mostly neighbours: S and S+1 with the same s, or s and s-1) differ in cost by a chosen small relative amount, 1e-8..1e-4: the search has to
+# tell them apart, and a comparison with any hidden tolerance does not. (Only the generator uses these formulas; the oracle does not.)
+def pair_lines(pm, G, lo, hi):
+    """a, b, pairs for all lo <= s < S <= hi (numpy arrays); renewal density of pm"""
+    W = hi - lo
+    m = np.zeros(W)
+    m[0] = 1.0 / (1.0 - pm[0])
+    for j in range(1, W):
+        k = min(j, len(pm) - 1)
+        m[j] = m[0] * float(np.dot(pm[1:k + 1], m[j - k:j][::-1]))
+    M = np.cumsum(m)
+    a, b, pairs = [], [], []
+    for S in range(lo + 1, hi + 1):
+        n = S - lo
+        g = np.array([G(S - j) for j in range(n)])
+        A = np.cumsum(m[:n] * g)
+        a.append(A / M[:n]); b.append(1.0 / M[:n])
+        pairs += [(S - k, S) for k in range(1, n + 1)]
+    return np.concatenate(a), np.concatenate(b), pairs
+
+
+def envelope_breakpoints(a, b, Klo, Khi):
+    """breakpoints of min_i (a_i + K b_i) for K in (Klo, Khi]: [(K*, index before, index after)]"""
+    i = int(np.argmin(a + Klo * b)); K = Klo; out = []
+    for _ in range(400):
+        cand = b < b[i] * (1 - 1e-12)
+        if not cand.any(): break
+        Kx = np.full(len(a), np.inf)
+        Kx[cand] = (a[cand] - a[i]) / (b[i] - b[cand])
+        j = int(np.argmin(Kx)); Kn = float(Kx[j])
+        if not Kn <= Khi: break
+        if Kn > K: out.append((Kn, i, j))
+        i = j; K = max(K, Kn)
+    return out
+
+
+def near_tie_K(rng, c):
+    """replace c['K'] by a value next to a breakpoint of the optimal policy (if one is found in [K/2, 2K]); records c['near_tie']"""
+    h, p = float(c['h']), float(c['p'])
+    pm = np.array([float(x) for x in c['pmf']]) if 'pmf' in c else poisson_table(c['mean'])
+    G = GCache(h, p, pm)
+    K0 = float(c['K']); Klo, Khi = max(K0 / 2, 0.125), max(2 * K0, 1.0)
+    mu = float(np.sum(pm * np.arange(len(pm))))
+    y0 = int(round(mu))
+    ys = min(range(y0 - len(pm) - 3, y0 + len(pm) + 3), key=G)
+    for W in (10, 20, 40, 70):
+        lo, hi = ys - W, ys + W
+        a, b, pairs = pair_lines(pm, G, lo, hi)
+        U = float(np.min(a + Khi * b))
+        if G(lo + 1) > U and G(hi - 1) > U: break          # every pair that is optimal for some K <= Khi lies inside the window
+    else:
+        return
+    bps = envelope_breakpoints(a, b, Klo, Khi)
+    if not bps: return
+    Ks, i, j = rng.choice(bps)
+    cost = float(a[i] + Ks * b[i])
+    gap = 10.0 ** rng.uniform(-8, -4)                        # relative cost difference between the two pairs at the K handed over
+    delta = gap * cost / (Ks * abs(float(b[i] - b[j])))
+    if not delta < 0.05: return
+    Kn = Ks * (1 + delta) if rng.random() < 0.6 else Ks * (1 - delta)
+    Kn = round(Kn * 2.0 ** 36) / 2.0 ** 36
+    if not Kn > 0: return
+    c['K'] = F(Kn)
+    c['near_tie'] = dict(pairs=[list(pairs[i]), list(pairs[j])], K_tie=Ks, rel_gap=gap)
 
 
 def gen_malformed(rng):
     kind = rng.choice(['cost_custom', 'cost_custom', 'exact_custom', 'cost_poisson'])
-    c = gen_case(rng, kind, 'quick')
+    c = gen_case(rng, kind, 'quick', plain=True)
     what = rng.choice(['nonpos', 'nonpos', 's_ge_S', 'p0_one', 'pmf_len'])
     if what == 'nonpos':
         k = rng.choice(['h', 'p', 'K']); c[k] = Fraction(rng.choice([0, -1, -3]), 4)
@@ -154,18 +276,24 @@ def _fin(x):
     return F(x)
 
 
+def _ig_pmf(c):
+    """(demand_hi, demand_pmf) handed over although use_poisson is True (documented as ignored), or (None, None)"""
+    return c.get('ig_hi'), (None if c.get('ig_pmf') is None else [float(x) for x in c['ig_pmf']])
+
+
 def _run_impl(c):
     ss = _ss()
     h, p, K = float(c['h']), float(c['p']), float(c['K'])
     try:
         if c['kind'] == 'cost_custom':
             pm = [float(x) for x in c['pmf']]
-            return ('ok', _fin(ss.s_s_cost_discrete(c['s'], c['S'], h, p, K, False, None, c.get('demand_hi', len(pm) - 1), pm)))
+            return ('ok', _fin(ss.s_s_cost_discrete(c['s'], c['S'], h, p, K, False, c.get('ig_mean'), c.get('demand_hi', len(pm) - 1), pm)))
         if c['kind'] == 'cost_poisson':
-            return ('ok', _fin(ss.s_s_cost_discrete(c['s'], c['S'], h, p, K, True, c['mean'])))
+            ihi, ipm = _ig_pmf(c)
+            return ('ok', _fin(ss.s_s_cost_discrete(c['s'], c['S'], h, p, K, True, c['mean'], ihi, ipm)))
         if c['kind'] == 'exact_custom':
             pm = [float(x) for x in c['pmf']]
-            s, S, g = ss.s_s_discrete_exact(h, p, K, False, None, c.get('demand_hi', len(pm) - 1), pm)
+            s, S, g = ss.s_s_discrete_exact(h, p, K, False, c.get('ig_mean'), c.get('demand_hi', len(pm) - 1), pm)
             return ('ok', int(s), int(S), _fin(g))
         # Poisson exact: record which one-period costs the run asked for (range of the G table handed to the model)
         seen = []
@@ -173,11 +301,12 @@ def _run_impl(c):
         def rec(y, *a, **k):
             seen.append(int(y)); return orig(y, *a, **k)
         ss.newsvendor_poisson_cost = rec
+        ihi, ipm = _ig_pmf(c)
         try:
-            s, S, g = ss.s_s_discrete_exact(h, p, K, True, c['mean'])
+            s, S, g = ss.s_s_discrete_exact(h, p, K, True, c['mean'], ihi, ipm)
         finally:
             ss.newsvendor_poisson_cost = orig
-        c['_yrange'] = (min(seen), max(seen))
+        if seen: c['_yrange'] = (min(seen), max(seen))
         return ('ok', int(s), int(S), _fin(g))
     except OverflowError:
         raise
@@ -461,6 +590,8 @@ def gen_seq(rng):
                 st['s'], st['S'] = rng.choice(pairs)
             else:
                 st['s'] = rng.randint(-2, int(mu) + 2); st['S'] = st['s'] + rng.randint(1, 8)
+            if pmfs and rng.random() < 0.5:                      # the wrapper forwards the pmf of the previous scenario as well (documented: ignored)
+                st['ig_pmf'] = pmfs[-1]; st['ig_hi'] = len(pmfs[-1]) - 1
             steps.append(st); continue
         st['fn'] = 'exact' if rng.random() < 0.25 else 'cost'
         v = rng.random()
@@ -468,6 +599,8 @@ def gen_seq(rng):
         elif pmfs and v < 0.3: pmf = gen_pmf(rng)                # another length
         else: pmf = gen_pmf(rng, D)
         pmfs.append(pmf); st['pmf'] = pmf
+        if rng.random() < 0.15:                                  # a demand_mean handed over with a custom pmf (documented: ignored)
+            st['ig_mean'] = rng.choice([float(sum(d * x for d, x in enumerate(pmf))), gen_mean(rng)])
         if st['fn'] == 'cost':
             if pairs and rng.random() < 0.6:
                 st['s'], st['S'] = rng.choice(pairs)             # the same pair (the same one-period cost arguments y) as an earlier step
@@ -484,7 +617,7 @@ def step_case(st):
     """the single-call case (as used by the other streams, the oracle and the model) that a step of a sequence amounts to"""
     kind = {'cost': 'cost_custom', 'exact': 'exact_custom', 'cost_poisson': 'cost_poisson'}[st['fn']]
     c = dict(kind=kind, h=st['h'], p=st['p'], K=st['K'], malformed=None)
-    for k in ('pmf', 'mean', 's', 'S'):
+    for k in ('pmf', 'mean', 's', 'S') + IG_KEYS:
         if k in st: c[k] = st[k]
     return c
 
@@ -493,10 +626,11 @@ def _call_step(ss, st, pm):
     h, p, K = float(st['h']), float(st['p']), float(st['K'])
     try:
         if st['fn'] == 'cost_poisson':
-            return ('ok', _fin(ss.s_s_cost_discrete(st['s'], st['S'], h, p, K, True, st['mean'])))
+            ihi, ipm = _ig_pmf(st)
+            return ('ok', _fin(ss.s_s_cost_discrete(st['s'], st['S'], h, p, K, True, st['mean'], ihi, ipm)))
         if st['fn'] == 'cost':
-            return ('ok', _fin(ss.s_s_cost_discrete(st['s'], st['S'], h, p, K, False, None, len(pm) - 1, pm)))
-        s, S, g = ss.s_s_discrete_exact(h, p, K, False, None, len(pm) - 1, pm)
+            return ('ok', _fin(ss.s_s_cost_discrete(st['s'], st['S'], h, p, K, False, st.get('ig_mean'), len(pm) - 1, pm)))
+        s, S, g = ss.s_s_discrete_exact(h, p, K, False, st.get('ig_mean'), len(pm) - 1, pm)
         return ('ok', int(s), int(S), _fin(g))
     except OverflowError:
         return ('err', 'NonFiniteResult', 'the implementation returned inf or nan')
@@ -558,10 +692,11 @@ def isolated_value(st):
     import subprocess, sys
     code = ('import json,sys,warnings; warnings.filterwarnings("ignore"); import stockpyl.ss as ss\n'
             'a=json.loads(sys.argv[1])\n'
-            'pm=a.get("pmf"); hi=None if pm is None else len(pm)-1\n'
-            'if a["fn"]=="exact": r=ss.s_s_discrete_exact(a["h"],a["p"],a["K"],False,None,hi,pm); print(repr((int(r[0]),int(r[1]),float(r[2]))))\n'
-            'else: print(repr(float(ss.s_s_cost_discrete(a["s"],a["S"],a["h"],a["p"],a["K"],pm is None,a.get("mean"),hi,pm))))\n')
-    arg = {k: (float(v) if isinstance(v, Fraction) else [float(x) for x in v] if k == 'pmf' else v) for k, v in st.items() if not k.startswith('_')}
+            'pm=a.get("pmf"); hi=None if pm is None else len(pm)-1; po=pm is None\n'
+            'if po: pm=a.get("ig_pmf"); hi=a.get("ig_hi")\n'
+            'if a["fn"]=="exact": r=ss.s_s_discrete_exact(a["h"],a["p"],a["K"],False,a.get("ig_mean"),hi,pm); print(repr((int(r[0]),int(r[1]),float(r[2]))))\n'
+            'else: print(repr(float(ss.s_s_cost_discrete(a["s"],a["S"],a["h"],a["p"],a["K"],po,a.get("mean") if po else a.get("ig_mean"),hi,pm))))\n')
+    arg = {k: (float(v) if isinstance(v, Fraction) else [float(x) for x in v] if k in ('pmf', 'ig_pmf') else v) for k, v in st.items() if not k.startswith('_')}
     try:
         out = subprocess.run([sys.executable, '-c', code, json.dumps(arg)], stdout=subprocess.PIPE, stderr=subprocess.DEVNULL, text=True, timeout=120)
         return out.stdout.strip().split('\n')[-1] if out.returncode == 0 else None
@@ -607,7 +742,8 @@ def check_seq(chk, c, res, touched):
 
 
 def seq_key(c):
-    return json.dumps(jsonable(['seq', c['mode'], [[st['fn'], st['h'], st['p'], st['K'], st.get('pmf'), st.get('mean'), st.get('s'), st.get('S')] for st in c['steps']]]))
+    return json.dumps(jsonable(['seq', c['mode'], [[st['fn'], st['h'], st['p'], st['K'], st.get('pmf'), st.get('mean'), st.get('s'), st.get('S')] + [st.get(k) for k in IG_KEYS if k in st]
+                                                   for st in c['steps']]]))
 
 
 def explore_seq(chk, n, do_model=True):
@@ -639,7 +775,7 @@ def explore_seq(chk, n, do_model=True):
 
 # ------------------------------------------------------------------------------------------------ driver
 def case_key(c):
-    return json.dumps(jsonable([c['kind'], c['h'], c['p'], c['K'], c.get('pmf'), c.get('mean'), c.get('s'), c.get('S')]))
+    return json.dumps(jsonable([c['kind'], c['h'], c['p'], c['K'], c.get('pmf'), c.get('mean'), c.get('s'), c.get('S')] + [c.get(k) for k in IG_KEYS if k in c]))
 
 
 def public(c):
@@ -658,13 +794,20 @@ def check_one(chk, c, r, do_agreement=True):
     if r[0] == 'err':
         feat = c['kind'].split('_')[1]
         if c['kind'] == 'cost_custom' and c['S'] - c['s'] > len(c['pmf']) - 1: feat += '|S-s>D'
-        chk.fail('%s|%s|raises-%s' % (fn, feat, r[1]), 'valid input raises %s: %s' % (r[1], r[2]), public(c))
+        if has_ignored(c): feat += '|ignored-argument-supplied'
+        chk.fail('%s|%s|raises-%s' % (fn, feat, r[1]), 'valid input%s raises %s: %s' % (' (with %s, documented as ignored)' % ignored_text(c) if has_ignored(c) else '', r[1], r[2]), public(c))
         return False
     bad = oracle_cost(c, r) if c['kind'].startswith('cost') else oracle_exact(c, r, chk)
     if do_agreement and c['kind'].endswith('poisson') and TIMEOUTS['n'] < 3:
         b2, tie = oracle_entry_agreement(c, r)
         bad += b2
         if tie: chk.extra['near_tie_skipped'] = chk.extra.get('near_tie_skipped', 0) + 1
+    if has_ignored(c) and (bad or c['kind'].startswith('cost')):
+        # an argument documented as ignored must not change the answer (cost calls: always compared; search: compared to word a report)
+        r0 = run_impl(without_ignored(c))
+        if r0[0] != 'skipped' and r0 != r and not (r0[0] == 'err' and r0[1] == 'TimeoutError'):
+            bad.append(('%s|%s|ignored-argument-changes-result' % (fn, c['kind'].split('_')[1]),
+                        'with %s (documented as ignored when use_poisson is %s) the call returns %r, without it %r' % (ignored_text(c), c['kind'].endswith('poisson'), jsonable(r), jsonable(r0)), None))
     for sig, what, _ in bad:
         chk.fail(sig, what, public(c))
     return (c['S'] - c['s'] >= 2) if c['kind'].startswith('cost') else (r[2] - r[1] >= 2)
@@ -700,6 +843,11 @@ def explore(chk, plan, do_model=True):
                     else: model[i] = v
     for i, (c, r) in enumerate(zip(cases, impl)):
         chk.count('kind=%s' % c['kind']); chk.count('malformed=%s' % c['malformed'])
+        if not c['malformed']:
+            chk.count('ignored_argument_supplied=%s' % ('+'.join(k[3:] for k in IG_KEYS if k in c) or 'none'))
+            if c['kind'].startswith('exact'):
+                nt = c.get('near_tie')
+                chk.count('K_next_to_policy_change=%s' % ('no' if nt is None else 'rel_gap<1e-6' if nt['rel_gap'] < 1e-6 else 'rel_gap<1e-4'))
         if 'pmf' in c and not c['malformed']:
             D = len(c['pmf']) - 1
             chk.count('D=%d' % D); chk.count('zero_points=%d' % sum(1 for x in c['pmf'] if x == 0))
@@ -733,9 +881,9 @@ def run(chk):
                    'termination of the search is not proved (explicit fuel in the model; watchdog on the implementation)']
     chk.proof()
     if chk.tier == 'quick':
-        plan = [('cost_custom', 400), ('cost_poisson', 150), ('exact_custom', 180), ('exact_poisson', 50), ('malformed', 60)]
+        plan = [('cost_custom', 400), ('cost_poisson', 150), ('exact_custom', 180), ('exact_poisson', 50), ('exact_custom_tie', 90), ('exact_poisson_tie', 40), ('malformed', 60)]
     else:
-        plan = [('cost_custom', 8000), ('cost_poisson', 2400), ('exact_custom', 4000), ('exact_poisson', 800), ('malformed', 500)]
+        plan = [('cost_custom', 8000), ('cost_poisson', 2400), ('exact_custom', 4000), ('exact_poisson', 800), ('exact_custom_tie', 2000), ('exact_poisson_tie', 600), ('malformed', 500)]
     nseq = 80 if chk.tier == 'quick' else 1500
     explore_seq(chk, nseq)          # first: the library has evaluated nothing yet, as in a replay of one of these cases
     explore(chk, plan)
@@ -752,6 +900,7 @@ def replay(chk, rp):
         for st in c['steps']:
             for k in ('h', 'p', 'K'): st[k] = Fraction(st[k])
             if st.get('pmf') is not None: st['pmf'] = [Fraction(x) for x in st['pmf']]
+            if st.get('ig_pmf') is not None: st['ig_pmf'] = [Fraction(x) for x in st['ig_pmf']]
         c.setdefault('malformed', None)
         info = {'fresh_calls': 0, 'fresh_same_id': 0}
         res, touched = run_seq(c, info)
@@ -761,6 +910,7 @@ def replay(chk, rp):
         return
     for k in ('h', 'p', 'K'): c[k] = Fraction(c[k]) if not isinstance(c[k], str) else Fraction(c[k])
     if c.get('pmf') is not None: c['pmf'] = [Fraction(x) for x in c['pmf']]
+    if c.get('ig_pmf') is not None: c['ig_pmf'] = [Fraction(x) for x in c['ig_pmf']]
     c.setdefault('malformed', None)
     r = run_impl(c)
     print('implementation:', jsonable(r))
